@@ -139,7 +139,12 @@ def subscriptions(analysis: Analysis, res: RuleResult) -> None:
 
     def templates(info) -> List[dict]:
         out = []
-        for n in ast.walk(info.node):
+        nodes = list(ast.walk(info.node))
+        # string templates kept in module-level constants referenced by the function
+        for n in list(nodes):
+            if isinstance(n, ast.Name) and n.id in info.module.assigns and isinstance(info.module.assigns[n.id], (ast.Tuple, ast.List)):
+                nodes.extend(ast.walk(info.module.assigns[n.id]))
+        for n in nodes:
             if isinstance(n, ast.JoinedStr):
                 lits = [v.value for v in n.values if isinstance(v, ast.Constant)]
                 vals = [unparse(v.value) for v in n.values if isinstance(v, ast.FormattedValue)]
@@ -175,7 +180,7 @@ def subscriptions(analysis: Analysis, res: RuleResult) -> None:
             for v in t["vals"]:
                 if "stream" in v:
                     kinds.append("stream")
-                elif v == "msg_type":
+                elif v == "msg_type" or v.endswith("_type") or v == "command":
                     kinds.append("msg_type")
                 elif "child" in v:
                     kinds.append("child")
@@ -191,7 +196,7 @@ def subscriptions(analysis: Analysis, res: RuleResult) -> None:
 
     def msg_types(info):
         for n in ast.walk(info.node):
-            if isinstance(n, ast.comprehension) and isinstance(n.target, ast.Name) and n.target.id == "msg_type" and isinstance(n.iter, (ast.Tuple, ast.List)):
+            if isinstance(n, (ast.comprehension, ast.For)) and isinstance(n.target, ast.Name) and isinstance(n.iter, (ast.Tuple, ast.List)) and all("MessageType" in unparse(e) for e in n.iter.elts) and n.iter.elts:
                 return sorted(unparse(e).split(".")[-1].rstrip(")") for e in n.iter.elts)
         return None
 
